@@ -199,3 +199,12 @@ Thm/C19/Lines.vos Thm/C19/Lines.vok Thm/C19/Lines.required_vos: Thm/C19/Lines.v 
 Thm/C19/Render.vo Thm/C19/Render.glob Thm/C19/Render.v.beautified Thm/C19/Render.required_vo: Thm/C19/Render.v Gen/Transformer.vo Thm/C19/Lines.vo
 Thm/C19/Render.vio: Thm/C19/Render.v Gen/Transformer.vio Thm/C19/Lines.vio
 Thm/C19/Render.vos Thm/C19/Render.vok Thm/C19/Render.required_vos: Thm/C19/Render.v Gen/Transformer.vos Thm/C19/Lines.vos
+Thm/C19/Plan.vo Thm/C19/Plan.glob Thm/C19/Plan.v.beautified Thm/C19/Plan.required_vo: Thm/C19/Plan.v Gen/Transformer.vo Sem/DecorateModel.vo Thm/C19/Lines.vo Thm/C19/Render.vo
+Thm/C19/Plan.vio: Thm/C19/Plan.v Gen/Transformer.vio Sem/DecorateModel.vio Thm/C19/Lines.vio Thm/C19/Render.vio
+Thm/C19/Plan.vos Thm/C19/Plan.vok Thm/C19/Plan.required_vos: Thm/C19/Plan.v Gen/Transformer.vos Sem/DecorateModel.vos Thm/C19/Lines.vos Thm/C19/Render.vos
+Sem/ScnDecorate.vo Sem/ScnDecorate.glob Sem/ScnDecorate.v.beautified Sem/ScnDecorate.required_vo: Sem/ScnDecorate.v Sem/Show.vo Gen/Transformer.vo Sem/DecorateModel.vo Thm/C19/Lines.vo Thm/C19/Render.vo
+Sem/ScnDecorate.vio: Sem/ScnDecorate.v Sem/Show.vio Gen/Transformer.vio Sem/DecorateModel.vio Thm/C19/Lines.vio Thm/C19/Render.vio
+Sem/ScnDecorate.vos Sem/ScnDecorate.vok Sem/ScnDecorate.required_vos: Sem/ScnDecorate.v Sem/Show.vos Gen/Transformer.vos Sem/DecorateModel.vos Thm/C19/Lines.vos Thm/C19/Render.vos
+Props/C19.vo Props/C19.glob Props/C19.v.beautified Props/C19.required_vo: Props/C19.v Gen/Transformer.vo Sem/DecorateModel.vo Thm/C19/Lines.vo Thm/C19/Render.vo Thm/C19/Plan.vo
+Props/C19.vio: Props/C19.v Gen/Transformer.vio Sem/DecorateModel.vio Thm/C19/Lines.vio Thm/C19/Render.vio Thm/C19/Plan.vio
+Props/C19.vos Props/C19.vok Props/C19.required_vos: Props/C19.v Gen/Transformer.vos Sem/DecorateModel.vos Thm/C19/Lines.vos Thm/C19/Render.vos Thm/C19/Plan.vos
